@@ -72,13 +72,6 @@ Theorem C02_B_tprd2_full : forall a b : nat -> R,
 Proof. intros a b; exact (conj (B_tprd2_1_ok a b) (conj (B_tprd2_2_ok a b) (B_tprd2_3_ok a b))). Qed.
 Print Assumptions C02_B_tprd2_full.
 
-Theorem C02_B_d2det_full : forall a : nat -> R,
-  (B_d2det_1 a = flat_B 1%nat (spec_B_d2det 1%nat (full_t 1%nat a))) /\
-  (B_d2det_2 a = flat_B 2%nat (spec_B_d2det 2%nat (full_t 2%nat a))) /\
-  (B_d2det_3 a = flat_B 3%nat (spec_B_d2det 3%nat (full_t 3%nat a))).
-Proof. intros a; exact (conj (B_d2det_1_ok a) (conj (B_d2det_2_ok a) (B_d2det_3_ok a))). Qed.
-Print Assumptions C02_B_d2det_full.
-
 Theorem C02_DC_mul_full : forall a b : nat -> R,
   (DC_mul_3 a b = flat_B 3%nat (spec_DC_mul 3%nat (full_D 3%nat a) (full_C 3%nat b))).
 Proof. intros a b; exact (DC_mul_3_ok a b). Qed.
